@@ -37,9 +37,9 @@ class LibMixin:
         if name == "set":
             cur = self.ctx_cell(st)
             tok = self.alloc(st, "Token")
-            self.hset(st, "$tok_old", tok, cur)
-            self.hset(st, "$tok_used", tok, Val.BoolV(z3.BoolVal(False)))
-            self.hset(st, "$tok_ctx", tok, Val.IntV(self.me))
+            self.hset(st, "tok_old", tok, cur)
+            self.hset(st, "tok_used", tok, Val.BoolV(z3.BoolVal(False)))
+            self.hset(st, "tok_ctx", tok, Val.IntV(self.me))
             st.heap["#CTX"] = z3.Store(self.harr(st, "#CTX"), self.me, box(self.heapify(st, a[0])))
             st.writes.append(("#CTX", self.me))
             return [Res(st, SV("inst", tok, h="Token"))]
@@ -50,13 +50,13 @@ class LibMixin:
                                       lambda s: self.ctxvar_method(s, recv, "reset", [SV("inst", Val.rv(tok.t), h="Token")]))
             if tok.k != "inst":
                 return [self.raise_new(st, "TypeError")]
-            used = Val.bv(self.hget(st, "$tok_used", tok.t))
-            same_ctx = self.hget(st, "$tok_ctx", tok.t) == Val.IntV(self.me)
+            used = Val.bv(self.hget(st, "tok_used", tok.t))
+            same_ctx = self.hget(st, "tok_ctx", tok.t) == Val.IntV(self.me)
 
             def k(s):
-                s.heap["#CTX"] = z3.Store(self.harr(s, "#CTX"), self.me, self.hget(s, "$tok_old", tok.t))
+                s.heap["#CTX"] = z3.Store(self.harr(s, "#CTX"), self.me, self.hget(s, "tok_old", tok.t))
                 s.writes.append(("#CTX", self.me))
-                self.hset(s, "$tok_used", tok.t, Val.BoolV(z3.BoolVal(True)))
+                self.hset(s, "tok_used", tok.t, Val.BoolV(z3.BoolVal(True)))
                 return [Res(s, SV("none"))]
             return self.may_raise(st, z3.And(z3.Not(used), same_ctx), "RuntimeError", k)
         raise Unsupported("ContextVar." + name)
@@ -116,7 +116,7 @@ class LibMixin:
             if tgt is not None:
                 self.hset(st, "$thread_target", r, box(self.heapify(st, tgt)))
                 st.heap["#THREADS"] = z3.Concat(self.harr(st, "#THREADS"), z3.Unit(Ev.mkEv(z3.StringVal("thread.new"), Val.RefV(r),
-                                                box(self.heapify(st, tgt)), NoneV, NoneV)))
+                                                box(self.heapify(st, tgt)), NoneV, NoneV, NoneV, NoneV, NoneV)))
             return [Res(st, SV("obj", r, h="Thread"))]
         # generic: opaque library function with a registered interface model
         key = "iface::ext.%s" % name
